@@ -1513,6 +1513,16 @@ func decide(st *State, c Val) (bool, bool) {
 			if nonNilByConstruction(b.X) {
 				return false, true
 			}
+			// the path knows x == S for a value S that cannot be nil (err == dsig.ErrMissingSignature): x is not nil
+			for _, f := range st.facts {
+				fb, isB := f.Cond.(*BinV)
+				if !isB || fb.Op != token.EQL || !f.Pol {
+					continue
+				}
+				if (fb.X.Key() == b.X.Key() && nonNilByConstruction(fb.Y)) || (fb.Y.Key() == b.X.Key() && nonNilByConstruction(fb.X)) {
+					return false, true
+				}
+			}
 			// a slice known to have len >= 1 is not nil
 			if isSliceType(b.X.Type()) {
 				lk := "len(" + b.X.Key() + ")"
@@ -1859,6 +1869,7 @@ func (p *Prog) constGlobals(en *Engine) map[string]cell {
 		refCand := map[*ssa.Global]bool{}
 		sliceCand := map[*ssa.Global]bool{}
 		mapCand := map[*ssa.Global]bool{}
+		errCand := map[*ssa.Global]bool{}
 		for _, m := range pk.Members {
 			g, ok := m.(*ssa.Global)
 			if !ok {
@@ -1882,6 +1893,10 @@ func (p *Prog) constGlobals(en *Engine) map[string]cell {
 				if ok, _ := p.globalInitOnly(g); ok {
 					sliceCand[g] = true
 				}
+			} else if typeStr(t) == "error" && storedOnlyByInit(g) {
+				// an error value built once (errors.New / fmt.Errorf / a typed error literal): error values are immutable,
+				// so every use of the loaded value is a read
+				errCand[g] = true
 			}
 		}
 		// disqualify globals written or address-taken outside init
@@ -1938,7 +1953,7 @@ func (p *Prog) constGlobals(en *Engine) map[string]cell {
 				}
 			}
 		}
-		if len(cand) == 0 && len(refCand) == 0 && len(sliceCand) == 0 && len(mapCand) == 0 {
+		if len(cand) == 0 && len(refCand) == 0 && len(sliceCand) == 0 && len(mapCand) == 0 && len(errCand) == 0 {
 			continue
 		}
 		initFn := pk.Func("init")
@@ -2040,6 +2055,22 @@ func (p *Prog) constGlobals(en *Engine) map[string]cell {
 			for hk, c := range fin.heap {
 				if db := directBase(c.addr); db != nil && db.Key() == arr.Key() {
 					p.globalInit[hk] = c
+				}
+			}
+		}
+		for g := range errCand {
+			gv := &GlobalV{G: g}
+			gv.typ = g.Type()
+			gv.key = "&" + shortName(g.String())
+			et := g.Type().Underlying().(*types.Pointer).Elem()
+			switch v := sub.load(fin, gv, et).(type) {
+			case *MakeIfaceV:
+				if v.X != nil && v.X.Type() != nil && constLikeType(v.X.Type()) {
+					p.globalInit[gv.Key()] = cell{gv, v}
+				}
+			case *CallV:
+				if v.Callee == "errors.New" || v.Callee == "fmt.Errorf" {
+					p.globalInit[gv.Key()] = cell{gv, v}
 				}
 			}
 		}
@@ -2539,4 +2570,35 @@ func canonCompare(x *BinV) (Val, bool) {
 		}
 	}
 	return nil, false
+}
+
+// storedOnlyByInit: the package-level variable is stored by the package initialiser only and its address is used for
+// nothing but loads.
+func storedOnlyByInit(g *ssa.Global) bool {
+	for _, f := range pkgFunctions(g.Pkg) {
+		isInit := f.Name() == "init" && f.Synthetic != ""
+		for _, b := range f.Blocks {
+			for _, in := range b.Instrs {
+				for _, op := range in.Operands(nil) {
+					if op == nil || *op != ssa.Value(g) {
+						continue
+					}
+					switch x := in.(type) {
+					case *ssa.UnOp:
+						if x.Op != token.MUL {
+							return false
+						}
+					case *ssa.Store:
+						if x.Addr != ssa.Value(g) || !isInit {
+							return false
+						}
+					case *ssa.DebugRef:
+					default:
+						return false
+					}
+				}
+			}
+		}
+	}
+	return true
 }
